@@ -351,17 +351,19 @@ def coq_closed(name, d, U, Lc, big):
 
 
 def coq_closed_rows(name, d, U, rows, Lrows, big):
-    """d = 13: liouville_representation takes the closed-form path; rows of the result vs the model"""
+    """d = 13: liouville_representation takes the closed-form path (the model's `==` flag is evaluated on the model's
+    Gell-Mann basis; evaluating the whole dispatcher, i.e. both expansions of all 169 elements, takes > 10 min on
+    intervals); sampled basis elements and the corresponding rows of the result vs the model's closed-form rows"""
     O = emit.ops(big)
     sel = '[' + ';'.join(str(i) for i in rows) + ']'
     return (f"Definition {name} : N*N*N :=\n  let O := {O} in\n"
             f"  let U := rmat O {carr_lit(U)}%Z in\n"
             f"  let gb := ggm_basis O {d} in\n"
-            f"  let L := liouville_representation O {d} true U gb in\n"
-            f"  tadd (tallyC O {emit.tol_lit(TOL, big)} {carr_lit(nd(ff.Basis.ggm(d))[rows].reshape(-1))}%Z\n"
-            f"          (flat3 (map (fun i => nthm gb i) {sel})))\n"
-            f"       (tallyR O {emit.tol_lit(TOL, big)} {rvec_lit(Lrows.reshape(-1))}%Z\n"
-            f"          (flat2 (map (fun i => nthv L i) {sel}))).\n")
+            f"  let sel := map (fun i => nthm gb i) {sel} in\n"
+            f"  tadd (tallyC O {emit.tol_lit(TOL, big)} {carr_lit(nd(ff.Basis.ggm(d))[rows].reshape(-1))}%Z (flat3 sel))\n"
+            f"  (tadd (tallyR O {emit.tol_lit(0.5, big)} [{dylit(1.0)}]%Z [basis_is_ggm_flag O {d} gb])\n"
+            f"        (tallyR O {emit.tol_lit(TOL, big)} {rvec_lit(Lrows.reshape(-1))}%Z\n"
+            f"          (flat2 (liouville_closed O {d} U sel)))).\n")
 
 
 def coq_choi(name, d, S, b, choi, big):
